@@ -26,6 +26,7 @@ class Gen:
         self.nhdl = 0
         self.stats = {}
         self.bodies_info = []
+        self.experts = []
 
     def count(self, k):
         self.stats[k] = self.stats.get(k, 0) + 1
@@ -178,6 +179,44 @@ class Gen:
         self.add_node("bind")
         self.count("bind")
 
+    def mk_expert(self):
+        """an expert node, a driver (map with expert effects over some input) and the edge expert->driver"""
+        kind = self.rng.choice(["sumdeps", "cbsum"])
+        self.act(f"expert {kind} {self.rng.choice([5, 7])}")
+        e = self.add_node("expert")
+        self.experts.append(e)
+        self.count("expert_" + kind)
+        self.mk_driver(e)
+
+    def mk_driver(self, e):
+        cb = "cb" if self.nodes[e]["kind"] == "expert" and self.rng.random() < 0.7 else "nocb"
+        effs = []
+        r = self.rng.random()
+        cands = [k for k in self.vnodes() if k != e and k < e]
+        if not cands:
+            return
+        if r < 0.45:
+            ts = [self.rng.choice(cands) for _ in range(self.rng.choice([2, 3]))]
+            effs.append(f"xsel n{e} {cb} {self.rng.choice(['always', 'ifnew'])} " + " ".join(f"n{t}" for t in ts))
+            self.count("drv_xsel")
+        elif r < 0.8:
+            effs.append(f"xadd n{e} n{self.rng.choice(cands)} {cb}")
+            if self.rng.random() < 0.6:
+                effs.append(f"xrm n{e} {self.rng.randint(0, 3)}")
+            self.count("drv_xadd_xrm")
+        elif r < 0.95:
+            effs.append(f"xstale n{e}")
+            self.count("drv_xstale")
+        else:
+            effs.append(f"xadd n{e} n{self.rng.choice(cands)} {cb}")
+            effs.append(f"xadd n{e} n{self.rng.choice(cands)} {cb}")
+            effs.append(f"xrm n{e} {self.rng.randint(0, 3)}")
+            self.count("drv_dup")
+        f = self.new_fn(1, effs)
+        self.act(f"map f{f} n{self.rng.choice(cands)}")
+        d = self.add_node("driver")
+        self.act(f"adddep n{e} n{d} nocb")
+
     def mk_cutoff(self):
         k = self.pick()
         if self.c01_safe:
@@ -288,6 +327,8 @@ class Gen:
                            cutoff=5, observe=8, obs=6, sub=0, varw=16, stab=12),
             "bind": dict(var=2, const=1, map=8, fold=1, mapref=1, mapold=1, zip=0, dependon=1, bind=10,
                          cutoff=2, observe=8, obs=5, sub=2, varw=16, stab=12),
+            "expert": dict(var=2, const=1, map=6, fold=1, mapref=1, mapold=1, zip=0, dependon=0, bind=2,
+                           cutoff=2, observe=8, obs=5, sub=1, varw=16, stab=12, expert=6, driver=4),
             "subs": dict(var=1, const=0, map=5, fold=0, mapref=1, mapold=1, zip=0, dependon=0, bind=2,
                          cutoff=2, observe=8, obs=8, sub=14, varw=12, stab=12),
         }[self.profile]
@@ -323,6 +364,11 @@ class Gen:
                 self.sub_action()
             elif op == "varw":
                 self.var_action()
+            elif op == "expert":
+                self.mk_expert()
+            elif op == "driver":
+                if self.experts:
+                    self.mk_driver(self.rng.choice(self.experts))
             elif op == "stab":
                 self.act("stabilise")
                 self.count("stabilise")
